@@ -15,6 +15,26 @@ class ObjectId(object):
     def __ne__(self, other):
         return not self == other
 
+    def __lt__(self, other):
+        if isinstance(other, ObjectId):
+            return self._id < other._id
+        return NotImplemented
+
+    def __le__(self, other):
+        if isinstance(other, ObjectId):
+            return self._id <= other._id
+        return NotImplemented
+
+    def __gt__(self, other):
+        if isinstance(other, ObjectId):
+            return self._id > other._id
+        return NotImplemented
+
+    def __ge__(self, other):
+        if isinstance(other, ObjectId):
+            return self._id >= other._id
+        return NotImplemented
+
     def __hash__(self):
         return hash(self._id)
 
